@@ -25,6 +25,14 @@ LEVEL_TEXT = (
 
 
 class GenCfg(Cfg):
+    def inline(self, call, ft, rc, st):
+        # module-level helper functions of the module the generator lives in (e.g. the path arithmetic moved into one)
+        if isinstance(call.func, ast.Name) and st.module is not None and call.func.id in st.module.functions and call.func.id not in st.env:
+            fi = st.module.functions[call.func.id]
+            if not any(isinstance(n, (ast.Yield, ast.YieldFrom)) for n in ast.walk(fi.node)):
+                return fi, st.selfcls, None
+        return None
+
     def loop_elem(self, node, iter_term, st):
         t = ast.unparse(iter_term)
         if t.startswith("os.walk("):
